@@ -322,6 +322,12 @@ def apply_op(model, sq, op, ctx=None, force=False):
             sq.dm_assert.append((list(sq.nodes), list(sq.vols)))
         return None
     if any(l.startswith("! fuel") for l in lines):
+        if not topo_sorted(sq.nodes):
+            # cyclic / order-broken tree (R1): the real code does not terminate either; never sent
+            sq.skipped += 1
+            if ctx is not None:
+                ctx.count("model-fuel-on-order-broken-tree:" + op.split()[0])
+            return None
         raise RuntimeError("model ran out of fuel on %r after %r" % (op, sq.text()))
     if any(l.startswith("c topo") for l in lines):
         sq.topo_fail.append(len(sq.ops))
@@ -333,6 +339,13 @@ def apply_op(model, sq, op, ctx=None, force=False):
     for l in lines:
         if l.startswith("t "):
             sq.nodes, sq.vols = parse_tree_line(l)
+    if not force and not topo_sorted(sq.nodes):
+        # the class invariant is gone (R1, after a user exchange): everything that recurses over
+        # the tree may now loop or overflow the stack on the real code -- stop the sequence here
+        # (this op is still sent and checked); the @R1 corpus lines cover the consequences
+        sq.ended = True
+        if ctx is not None:
+            ctx.count("sequence-ended-topological-order-lost")
     return lines
 
 
@@ -564,6 +577,13 @@ def oracle(sq, impl_lines):
         try:
             if kind in MUTATING:
                 new_nodes, new_vols = parse_tree_line(lines[1])
+                if not topo_sorted(new_nodes) and any(o[0] == "x" and o.split()[2] not in "TF" for o in sq.ops[:k + 1]):
+                    try:
+                        tables(new_nodes, sg)
+                    except Bad:
+                        # R1 can even produce an alias cycle (e.g. 12: ->{12}); nothing can be evaluated
+                        probs.append(("note", "alias-cycle-after-arbitrary-exchange", k))
+                        break
                 newT = tables(new_nodes, sg)
                 if not topo_sorted(new_nodes):
                     # R1 (NOTES.md): after a user exchange with an arbitrary node the swap-to-lower
